@@ -74,7 +74,13 @@ def rule_timer(ctx, f, ty):
     def summary(b):
         recs = b.calls_to(rec_callee)
         es = b.calls_to("Instant::elapsed_sec")
-        stores = [(bi, b.term_rvalue(rv)) for bi, si, pl, rv in b.stores() if pl["p"] and pl["p"][-1][0] == "field" and pl["p"][-1][2] == "observed"]
+        def to_observed(pl):
+            if pl["p"] and pl["p"][-1][0] == "field" and pl["p"][-1][2] == "observed":
+                return True
+            # `*flag = true` with `flag = &mut self.observed` handed to a helper that was expanded here
+            t_ = b.term_place(pl)
+            return bool(pl["p"]) and isinstance(t_, tuple) and len(t_) == 3 and t_[0] == "field" and t_[2] == "observed"
+        stores = [(bi, b.term_rvalue(rv)) for bi, si, pl, rv in b.stores() if to_observed(pl)]
         return recs, es, stores
     # T2: `observed` only ever becomes true
     bad_w = []
@@ -104,7 +110,7 @@ def rule_timer(ctx, f, ty):
             ok = ok and not recs_live
         # the flag is raised on every path, so that the Drop that follows does not record again
         st_live = [bi for bi, v in stores if bi in live]
-        ok = ok and bool(st_live) and b.all_paths_pass(0, st_live)
+        ok = ok and bool(st_live) and b.all_paths_pass(0, st_live) and all(v[0] == "const" and v[1] == "true" for bi, v in stores if bi in live)
         if m != "observe_duration":
             r0 = peel(b.term_local(0))
             rets = [peel(a_) for a_ in b.var_alts(r0[1])] if (isinstance(r0, tuple) and r0[0] == "var") else [r0]
